@@ -21,7 +21,7 @@ Monitors / oracle (rv/ref/c37_link.py `Engine` + `RxModel`, shared with C37): al
          rising edge of `enable` are decoded and judged:
            the first LGOOD / LCRD / LBAD is an LGOOD carrying the last received sequence number (7 after a USB reset
              or power-on; otherwise expected-1 of the reference model), then LCRD A, B, C, D in this order, complete
-             within 400 cycles; no LBAD without a new corrupted header; LUP / LXU / LRTY are not judged;
+             within 120 cycles in which source.ready was high; no LBAD without a new corrupted header; LUP / LXU / LRTY are not judged;
            fresh receive state: no header of the previous life is offered on `queue`; the partner then sends headers
              numbered advertised+1, ... which must all be accepted, acknowledged with their numbers, offered bit-exact
              and in order; every later LCRD needs a consumed header and continues the A-B-C-D order; (the complete
@@ -133,7 +133,7 @@ def probe(eng, rng, res):
             sent += 1
     if sent:
         yield from eng.wait_sink_idle(extra=1)
-        yield from eng.quiesce(bound=300, need_empty=False)
+        yield from eng.quiesce(bound=150, need_empty=False)
         res.bin("probe_after_reentry")
 
 
